@@ -286,3 +286,22 @@ Proof.
   intros z m Hzm. rewrite forallb_forall in H3. specialize (H3 _ Hzm). cbn [snd] in H3.
   destruct (tm_origin m) as [p|]; [eauto|discriminate].
 Qed.
+
+(** ** the orderedAxes fall-back of ToXYPoint (used when the CRS authority is unknown): after the repair of F15 it
+       swaps exactly the northing-first orders *)
+Lemma to_lower_app a b : to_lower (append a b) = append (to_lower a) (to_lower b).
+Proof. induction a as [| c a IH]; cbn [append to_lower]; [reflexivity | rewrite IH; reflexivity]. Qed.
+
+Definition axis_table : list (string * string * bool) :=
+  [("e", "n", false); ("x", "y", false); ("lon", "lat", false); ("e(x)", "n(y)", false);
+   ("n", "e", true); ("y", "x", true); ("lat", "lon", true); ("n(y)", "e(x)", true)]%string.
+
+Lemma fallback_axis_order a b rest r : In (to_lower a, to_lower b, r) axis_table ->
+  axisOrderIsLatLon (Some (a :: b :: rest)) = Ok r.
+Proof.
+  intro H. unfold axisOrderIsLatLon. rewrite to_lower_app. cbn [to_lower append].
+  change (lower_ascii ","%char) with ","%char.
+  unfold axis_table in H. cbn [In] in H.
+  repeat (destruct H as [H | H]; [injection H as Ha Hb Hr; rewrite <- Ha, <- Hb, <- Hr; reflexivity |]).
+  contradiction.
+Qed.
